@@ -12,6 +12,7 @@ import (
 	"fmt"
 	"io"
 	"os"
+	"strconv"
 	"regexp"
 	"strings"
 	"sync"
@@ -43,16 +44,47 @@ type c04Frac struct {
 type c04Corpus struct {
 	Name  string
 	Fracs []c04Frac
+	// Recent: the MIDs are milliseconds BEFORE the start of the current wall-clock minute (resolved by
+	// c04Init), so that the fraction gets a minute occupancy map and Contains() consults it
+	Recent bool
 }
 
 var c04Corpora = []c04Corpus{
-	{"one-active", []c04Frac{{[]c04Doc{{1000, 5, 2}, {1001, 5, 40}, {1002, 5, 200}}, false}}},
-	{"one-sealed", []c04Frac{{[]c04Doc{{1000, 5, 2}, {1001, 5, 40}, {1002, 5, 200}}, true}}},
-	{"sealed+active-overlap", []c04Frac{{[]c04Doc{{1000, 5, 30}, {1001, 5, 2}}, true}, {[]c04Doc{{1001, 7, 100}, {1003, 5, 9}}, false}}},
-	{"two-sealed-overlap", []c04Frac{{[]c04Doc{{1000, 5, 30}, {1002, 9, 2}}, true}, {[]c04Doc{{1001, 7, 100}, {1002, 3, 9}}, true}}},
-	{"single-doc-sealed", []c04Frac{{[]c04Doc{{1000, 5, 17}}, true}}},
-	{"single-doc-active", []c04Frac{{[]c04Doc{{1000, 5, 17}}, false}}},
-	{"equal-mids-sealed", []c04Frac{{[]c04Doc{{1000, 5, 10}, {1000, 7, 20}, {1000, 9, 30}, {1001, 1, 5}}, true}}},
+	{"one-active", []c04Frac{{[]c04Doc{{1000, 5, 2}, {1001, 5, 40}, {1002, 5, 200}}, false}}, false},
+	{"one-sealed", []c04Frac{{[]c04Doc{{1000, 5, 2}, {1001, 5, 40}, {1002, 5, 200}}, true}}, false},
+	{"sealed+active-overlap", []c04Frac{{[]c04Doc{{1000, 5, 30}, {1001, 5, 2}}, true}, {[]c04Doc{{1001, 7, 100}, {1003, 5, 9}}, false}}, false},
+	{"two-sealed-overlap", []c04Frac{{[]c04Doc{{1000, 5, 30}, {1002, 9, 2}}, true}, {[]c04Doc{{1001, 7, 100}, {1002, 3, 9}}, true}}, false},
+	{"single-doc-sealed", []c04Frac{{[]c04Doc{{1000, 5, 17}}, true}}, false},
+	{"single-doc-active", []c04Frac{{[]c04Doc{{1000, 5, 17}}, false}}, false},
+	{"equal-mids-sealed", []c04Frac{{[]c04Doc{{1000, 5, 10}, {1000, 7, 20}, {1000, 9, 30}, {1001, 1, 5}}, true}}, false},
+	// six documents of one millisecond: with the scaled constants (4 IDs per block) the run crosses an ID-block border
+	{"equal-mids-two-id-blocks-sealed", []c04Frac{{[]c04Doc{{1000, 5, 10}, {1000, 7, 20}, {1000, 9, 30}, {1000, 3, 5}, {1000, 11, 8}, {1000, 1, 14}}, true}}, false},
+	// recent documents, sparse minutes: the oldest one is 30 s off the wall-clock minute, the others lie
+	// 10 s before / after that offset in their minutes, with empty minutes in between
+	{"recent-sparse-sealed", []c04Frac{{[]c04Doc{{12*60_000 - 30_000, 5, 10}, {8*60_000 - 20_000, 5, 20}, {8*60_000 - 40_000, 5, 30}, {4*60_000 - 40_000, 5, 12}, {2*60_000 - 20_000, 5, 25}}, true}}, true},
+}
+
+var c04InitOnce sync.Once
+
+// c04Init resolves the recent corpora against VERIF_C04_NOW (set by the parent before the workers start).
+func c04Init() {
+	c04InitOnce.Do(func() {
+		now, _ := strconv.ParseInt(os.Getenv("VERIF_C04_NOW"), 10, 64)
+		if now == 0 {
+			panic("VERIF_C04_NOW is not set")
+		}
+		m0 := uint64(now / 60_000 * 60_000)
+		for ci := range c04Corpora {
+			if !c04Corpora[ci].Recent {
+				continue
+			}
+			for fi := range c04Corpora[ci].Fracs {
+				for di := range c04Corpora[ci].Fracs[fi].Docs {
+					c04Corpora[ci].Fracs[fi].Docs[di].MID = m0 - c04Corpora[ci].Fracs[fi].Docs[di].MID
+				}
+			}
+		}
+	})
 }
 
 func c04Body(d c04Doc) string {
@@ -77,6 +109,7 @@ type c04Job struct {
 	Via    string  `json:"via"` // fetcher | grpc
 	// large lists: N ids, present docs of corpus placed at positions Pos, the rest absent
 	Large *c04Large `json:"large,omitempty"`
+	Now   int64     `json:"now,omitempty"` // the wall clock the recent corpora were resolved against
 }
 
 type c04Large struct {
@@ -148,6 +181,7 @@ func c04GetStore(ci int) *c04Store {
 }
 
 func c04Handle(raw json.RawMessage) any {
+	c04Init()
 	var job c04Job
 	if err := json.Unmarshal(raw, &job); err != nil {
 		return c04Answer{Err: "bad job: " + err.Error()}
@@ -385,7 +419,7 @@ func judgeC04(r *vlib.Run, pool *vlib.Pool, job c04Job) {
 		return
 	}
 	if len(ans.Docs) != len(ids) {
-		r.Violation(fmt.Sprintf("fetch-count via=%s", job.Via), job, fmt.Sprintf("%s\ngot %d entries for %d ids", desc, len(ans.Docs), len(ids)))
+		r.Violation(fmt.Sprintf("fetch-count corpus=%s via=%s", c04Corpora[job.Corpus].Name, job.Via), job, fmt.Sprintf("%s\ngot %d entries for %d ids", desc, len(ans.Docs), len(ids)))
 		return
 	}
 	nontrivial := false
@@ -411,7 +445,7 @@ func judgeC04(r *vlib.Run, pool *vlib.Pool, job c04Job) {
 			} else if exp == "" {
 				kind = "fetch-phantom"
 			}
-			r.Violation(fmt.Sprintf("%s via=%s hint=%s", kind, job.Via, id.Hint), job, fmt.Sprintf("%s\nposition %d id=%d.%d got %q want %q", desc, i, id.MID, id.RID, trunc(got, 80), trunc(exp, 80)))
+			r.Violation(fmt.Sprintf("%s corpus=%s via=%s hint=%s", kind, c04Corpora[job.Corpus].Name, job.Via, id.Hint), job, fmt.Sprintf("%s\nposition %d id=%d.%d got %q want %q", desc, i, id.MID, id.RID, trunc(got, 80), trunc(exp, 80)))
 			return
 		}
 		if exp != "" && i > 0 {
@@ -444,7 +478,14 @@ func TestVerifC04(t *testing.T) {
 		pool.Close()
 	}()
 	var rj c04Job
-	if r.LoadReplay(&rj) {
+	replaying := r.LoadReplay(&rj)
+	now := time.Now().UnixMilli()
+	if replaying && rj.Now != 0 {
+		now = rj.Now
+	}
+	os.Setenv("VERIF_C04_NOW", fmt.Sprint(now)) // before the first worker starts
+	c04Init()
+	if replaying {
 		judgeC04(r, pool, rj)
 		r.Finish(t, "model_checking", "replay", nil, nil)
 		return
@@ -470,7 +511,7 @@ func TestVerifC04(t *testing.T) {
 						if hint == "wrong" && len(ids) > 1 {
 							ids[0].Hint = "right" // mixed hints inside one request
 						}
-						jobs = append(jobs, c04Job{Corpus: ci, IDs: ids, Via: via})
+						jobs = append(jobs, c04Job{Corpus: ci, IDs: ids, Via: via, Now: now})
 					}
 				}
 			}
@@ -508,7 +549,7 @@ func TestVerifC04(t *testing.T) {
 						}
 					}
 					for _, p := range places {
-						jobs = append(jobs, c04Job{Corpus: ci, Via: "grpc", Large: &c04Large{N: n, Pos: p, AbsKind: abs}})
+						jobs = append(jobs, c04Job{Corpus: ci, Via: "grpc", Large: &c04Large{N: n, Pos: p, AbsKind: abs}, Now: now})
 						nLarge++
 					}
 				}
@@ -531,7 +572,7 @@ func TestVerifC04(t *testing.T) {
 	}
 	ev := r.Get("evaluations")
 	r.Finish(t, "model_checking",
-		fmt.Sprintf("7 corpora (active / sealed / overlapping fractions / equal MIDs; doc sizes 2..200 B); every list of <=%d distinct IDs over {present IDs} + {absent IDs at every border: (From-1), (From,minRID-1), (From,minRID+1), between, (To,maxRID+1), (To+1,0), 0, max}; hints {none,right,wrong(mixed),unknown}; via Fetcher.FetchDocs and streaming GrpcV1.Fetch; plus lists of 1001/1500/2500 IDs with 0..3 present documents at start/middle/chunk end/end. Stores live in worker subprocesses; a dying or hanging store is a violation after 3 reproductions. non-trivial = a present document at a position > 0 or a large list", maxLen),
+		fmt.Sprintf("9 corpora, built with the scaled block constants of the `small` overlay (4 IDs per block) (active / sealed / overlapping fractions / equal MIDs within one and across two ID blocks / a sealed fraction of recent documents in sparse minutes, which has a minute occupancy map; doc sizes 2..200 B); every list of <=%d distinct IDs over {present IDs} + {absent IDs at every border: (From-1), (From,minRID-1), (From,minRID+1), between, (To,maxRID+1), (To+1,0), 0, max}; hints {none,right,wrong(mixed),unknown}; via Fetcher.FetchDocs and streaming GrpcV1.Fetch; plus lists of 1001/1500/2500 IDs with 0..3 present documents at start/middle/chunk end/end. Stores live in worker subprocesses; a dying or hanging store is a violation after 3 reproductions. non-trivial = a present document at a position > 0 or a large list", maxLen),
 		map[string]any{
 			"states":                        len(c04Corpora),
 			"transitions":                   ev,
